@@ -31,6 +31,17 @@ macro_rules! define_hasher {
             datalen: usize,
         }
 
+        /// Verification hooks (only with `--cfg cryptocorrosion_verif`): access to the byte counter.
+        #[cfg(cryptocorrosion_verif)]
+        impl $name {
+            pub fn verif_set_counter(&mut self, bytes: usize) {
+                self.datalen = bytes;
+            }
+            pub fn verif_counter(&self) -> usize {
+                self.datalen
+            }
+        }
+
         impl Debug for $name {
             fn fmt(&self, f: &mut Formatter) -> Result {
                 f.debug_struct("Jh")
